@@ -522,9 +522,9 @@ func plan(op *wops.Op, cfg planCfg) []seg {
 	}
 	// --- PRNG
 	{
-		n := 3072
+		n := 16384
 		if !cfg.quick {
-			n = 49152
+			n = 262144
 		}
 		if ar == 1 {
 			n *= 2
@@ -559,7 +559,7 @@ func boundaryWindow(cfg planCfg) []uint64 {
 	if !cfg.quick {
 		return setI16
 	}
-	return windowOf(setI16, 12, cfg.seed)
+	return windowOf(setI16, 24, cfg.seed)
 }
 
 func windowOf(s []uint64, n int, seed int64) []uint64 {
@@ -582,9 +582,9 @@ func windowOf(s []uint64, n int, seed int64) []uint64 {
 // kstrideFor bounds the number of tuples baked as constants per segment
 // (compiling straight-line code is what costs time in form K).
 func kstrideFor(cfg planCfg, n int) int {
-	budget := 2048
+	budget := 8192
 	if !cfg.quick {
-		budget = 16384
+		budget = 65536
 	}
 	s := (n + budget - 1) / budget
 	if s < 1 {
